@@ -18,6 +18,7 @@ VARIANTS = {
     "src1":   dict(macro="ascent", attrs=[], pack="source", cut=1),
     "src2":   dict(macro="ascent", attrs=[], pack="source", cut=2),
     "srcpar": dict(macro="ascent_par", attrs=[], pack="source", cut=1),
+    "srcto":  dict(macro="ascent", attrs=["generate_run_timeout"], timeout=True, pack="source", cut=1),
     "redecl": dict(macro="ascent", attrs=[], pack="redecl"),
     "init":   dict(macro="ascent", attrs=[], pack="init"),
     "perm1":  dict(macro="ascent", attrs=[], xform="perm", seed=1),
@@ -49,7 +50,7 @@ def variants_for(prog):
             vs += ["topar"]
     vs += sorted(tags & set(VARIANTS) - set(vs))     # explicit variant names as tags
     if "pack" in tags:
-        vs += ["run", "mrt", "gen", "src0", "src1", "src2", "redecl", "init"]
+        vs += ["run", "mrt", "gen", "src0", "src1", "src2", "srcto", "redecl", "init"]
         if "par" in tags:
             vs += ["runpar", "srcpar"]
     if "perm" in tags:
@@ -144,7 +145,8 @@ def assemble(modname, prog, var, cmap, decls, macros, rules, push_conv):
             decl2 = []
             for r, d in zip(rels, decls):
                 if r["input"] and r["ds"] == "-":
-                    decl2.append(d[:-1] + f' = vh_lite::init_rows("{r["name"]}").iter().map(|row| {conv(r)}).collect();')
+                    row = f"std::sync::RwLock::new({conv(r)})" if (r["kind"] == "lat" and par) else conv(r)
+                    decl2.append(d[:-1] + f' = vh_lite::init_rows("{r["name"]}").iter().map(|row| {row}).collect();')
                 else:
                     decl2.append(d)
             body_items = decl2 + macros + rules
@@ -204,9 +206,12 @@ pub fn make() -> Box<dyn Driven> {{ Box::new(D(Prog::default())) }}
         pushes = "\n".join(f'         "{r["name"]}" => {{ self.{r["name"]}.push({conv(r)}); }},' for r in plain)
         inits, decl2 = [], []
         for r, d in zip(rels, decls):
-            if r["ds"] == "-" and r["kind"] == "rel":
+            if r["ds"] == "-" and (r["kind"] == "rel" or r["input"]):
                 inits.append(f"      let {r['name']}_init = self.{r['name']}.clone();")
-                src = f"{r['name']}_init" + (".into_iter().collect()" if par else "")
+                if r["kind"] == "lat" and par:
+                    src = f"{r['name']}_init.into_iter().map(std::sync::RwLock::new).collect()"
+                else:
+                    src = f"{r['name']}_init" + (".into_iter().collect()" if par else "")
                 decl2.append(d[:-1] + f" = {src};")
             else:
                 decl2.append(d)
